@@ -322,6 +322,9 @@ RETENTION_SHAPES = [
     ("string-keys-and-values", "local t={} for i=1,10000 do t[('key'):rep(5)..i]=('v'):rep(30)..i end KEEP=t"),
     ("upvalue-chains", "local f=function() return 0 end for i=1,20000 do local g=f f=function() return g()+1 end end KEEP=f"),
     ("metatables", "local t={} for i=1,8000 do t[i]=setmetatable({}, {__index=function() return i end}) end KEEP=t"),
+    # what nested contexts allocated before they were killed stays reachable from outside
+    ("killed-children", "local t={} for i=1,200 do runtime.callcontext({kill={memory=80000}},function() while true do t[#t+1]=('x'):rep(1000)..#t end end) end KEEP=t"),
+    ("failed-children", "local t={} for i=1,200 do pcall(function() for j=1,60 do t[#t+1]=('y'):rep(1000)..#t end error('e') end) end KEEP=t"),
     # functions made by load() keep their constants alive
     ("loaded-functions-string-constants", "local src=\"return '\"..('x'):rep(20000)..\"'\" local t={} for i=1,150 do t[i]=load(src) end KEEP=t"),
     ("loaded-functions-many-constants", "local p={} for i=1,400 do p[i]=\"'k\"..i..('y'):rep(40)..\"'\" end local src='return {'..table.concat(p,',')..'}' "
